@@ -151,10 +151,10 @@ _H_VERDICT = {
     "c01_scale_invariance_fp_m1": dict(stubs=True, timeout=1800, mem_gb=24, unit="DefaultResiduals::update + DefaultInfo::update (gemv, symv, dot, norm_scaled, norm_inf_scaled, get_normq/get_normb), DefaultProblemData::new", inst="GF(13), canonical square root",
         bounds="n=1, m=1; data, iterate and the scalings d, e: every field value (d, e non-zero); c = tau = 1", oracle="every termination quantity (costs, residuals, infeasibility residuals, gaps, ktratio) computed from the equilibrated presentation equals the one computed from the user's data with the unscaled iterate; cost formulas q'x+x'Px/2, -b'z-x'Px/2"),
     "c01_scale_invariance_fp_m2": dict(stubs=True, tier="thorough", timeout=3600, mem_gb=28, unit="same", inst="same", bounds="n=1, m=2", oracle="same"),
-    "c01_scale_invariance_m1_a": dict(nofloat=True, stubs=True, tier="thorough", timeout=5400, mem_gb=28, unit="DefaultResiduals::update + DefaultInfo::update (gemv, symv, dot, norm_scaled, get_normq/get_normb)", inst="f64: data/iterate small integers |v|<=3, scalings powers of two (all products exact)",
+    "c01_scale_invariance_m1_a": dict(nofloat=True, stubs=True, tier="thorough", timeout=7200, mem_gb=28, unit="DefaultResiduals::update + DefaultInfo::update (gemv, symv, dot, norm_scaled, get_normq/get_normb)", inst="f64: data/iterate small integers |v|<=3, scalings powers of two (all products exact)",
         bounds="n=1, m=1; scalings d=2, e=1/2, c=4, tau=2 (concrete); data and iterate symbolic small integers", oracle="every termination quantity (costs, residuals, gaps, ktratio) is bit-identical when computed from the internally scaled presentation and from the user's data with the unscaled iterate; cost formulas q'x+x'Px/2, -b'z-x'Px/2"),
-    "c01_scale_invariance_m1_b": dict(nofloat=True, stubs=True, tier="thorough", timeout=5400, mem_gb=28, unit="same", inst="same", bounds="n=1, m=1; d=1/4, e=4, c=1/2, tau=1", oracle="same"),
-    "c01_scale_invariance_m1_c": dict(nofloat=True, stubs=True, tier="thorough", timeout=5400, mem_gb=28, unit="same", inst="same", bounds="n=1, m=1; d=4, e=2, c=1/4, tau=4", oracle="same"),
+    "c01_scale_invariance_m1_b": dict(nofloat=True, stubs=True, tier="thorough", timeout=9000, mem_gb=28, unit="same", inst="same", bounds="n=1, m=1; d=1/4, e=4, c=1/2, tau=1", oracle="same"),
+    "c01_scale_invariance_m1_c": dict(nofloat=True, stubs=True, tier="thorough", timeout=7200, mem_gb=28, unit="same", inst="same", bounds="n=1, m=1; d=4, e=2, c=1/4, tau=4", oracle="same"),
     "c01_scale_invariance_m2_a": dict(nofloat=True, stubs=True, tier="thorough", timeout=5400, mem_gb=32, unit="same", inst="same", bounds="n=1, m=2; d=2, e=(1/2, 2), c=4, tau=2", oracle="same"),
     "c01_post_process_fp": dict(timeout=900, unit="DefaultSolution::post_process -> DefaultVariables::unscale", inst="GF(13)",
         bounds="n=m=2, 7 non-infeasible statuses", oracle="returned x,z,s are the unscaled iterate; objectives copied"),
@@ -202,11 +202,11 @@ def _c16():
     add("c16_queries_3x3_nnz4", unit="CscMatrix::index_to_coord/get_entry/is_triu/count_diagonal_entries/findnz/nnz", inst="i32", bounds="3x3 nnz=4 symbolic canonical pattern", oracle=q_or)
     add("c16_queries_2x3_nnz3", unit="same", inst="i32", bounds="2x3 nnz=3", oracle=q_or, rot=True)
     add("c16_gemv_3x2_nnz3", unit="MatrixVectorMultiply::gemv for CscMatrix and Adjoint (_csc_axpby_N/_T)", inst="GF(13)", bounds="3x2 nnz=3 symbolic pattern, all a,b,x,y", oracle="y = a*A*x + b*y and y = a*A'*x + b*y (dense reference), incl. a,b in {0,1,-1} fast paths")
-    add("c16_gemv_2x3_nnz4", unit="same", inst="GF(13)", bounds="2x3 nnz=4", oracle="same", tier="thorough")
+    add("c16_gemv_2x3_nnz4", unit="same", inst="GF(13)", bounds="2x3 nnz=4", oracle="same", tier="thorough", timeout=2400)
     add("c16_symv_2x2_nnz3", unit="SymMatrixVectorMultiply::symv (_csc_symv_unsafe, unchecked indexing), MatrixMath::quad_form", inst="GF(13)", bounds="2x2 triu nnz=3", oracle="y = a*sym(A)*x + b*y; quad_form = y' sym(A) x; memory safe")
     add("c16_symv_3x3_nnz4", tier="thorough", timeout=3600, unit="same", inst="GF(13)", bounds="3x3 triu nnz=4 symbolic pattern", oracle="same")
     add("c16_scalings_3x2_nnz3", unit="MatrixMathMut::lscale/rscale/lrscale/scale/negate, MatrixMath::col_sums/row_sums", inst="GF(13)", bounds="3x2 nnz=3 symbolic pattern", oracle="entrywise dense definition; pattern unchanged")
-    add("c16_scalings_2x3_nnz4", unit="same", inst="GF(13)", bounds="2x3 nnz=4", oracle="same", tier="thorough")
+    add("c16_scalings_2x3_nnz4", unit="same", inst="GF(13)", bounds="2x3 nnz=4", oracle="same", tier="thorough", timeout=1800)
     add("c16_norms_3x3_nnz4", nofloat=True, unit="MatrixMath::col_norms/col_norms_no_reset/col_norms_sym/row_norms", inst="f64, every non-NaN value", bounds="3x3 nnz=4 symbolic pattern", oracle="max |a_ij| per column / row / symmetric column; no_reset accumulates")
     add("c16_norms_2x3_nnz3", nofloat=True, unit="same", inst="f64", bounds="2x3 nnz=3", oracle="same", rot=True)
     add("c16_transpose_3x2_nnz3", unit="From<Adjoint<CscMatrix>> (colcount_block(T), colcount_to_colptr, fill_block, backshift_colptrs)", inst="i32", bounds="3x2 nnz=3 symbolic pattern", oracle="canonical; B[j][i] == A[i][j]")
@@ -255,8 +255,8 @@ PROPS["C17"] = {
         ("c17_dsu_query_inductive_n8", dict(unit="DisjointSetUnion::{in_same_set,root} (path compression)", inst="usize", bounds="ONE query from an ARBITRARY valid state on 8 elements (rank-increasing forest with subtree size >= 2^rank: the union-by-rank invariant); 8 is the smallest size with a depth-3 tree", oracle="in_same_set(x,y) <=> same true root; compression keeps every root", timeout=1800, mem_gb=20)),
         ("c17_dsu_union_inductive_n6", dict(unit="DisjointSetUnion::union", inst="usize", bounds="ONE union from an arbitrary valid state on 6 elements (ranks <= 2: a rank-2 set of four and a rank-1 set of two fit)", oracle="merges exactly the two components; preserves the invariant", timeout=2400, mem_gb=24)),
         ("c17_dsu_union_inductive_n8", dict(tier="thorough", unit="DisjointSetUnion::union", inst="usize", bounds="ONE union from an arbitrary valid state on 8 elements", oracle="merges exactly the two components; preserves the invariant (=> histories of any length, by induction)", timeout=9000, mem_gb=24)),
-        ("c17_dsu_n5_u4", dict(tier="thorough", unit="DisjointSetUnion::{new,union,in_same_set,root}", inst="usize", bounds="5 elements, any 4 unions from the initial state, any query", oracle="in_same_set <=> connected by the unions made", timeout=1800, mem_gb=20)),
-        ("c17_kruskal_n4_a", dict(tier="thorough", unit="clique_graph::kruskal (findnz, sortperm_rev, permute, DisjointSetUnion)", inst="isize weights", bounds="4 cliques; edge sets {K4, 4-cycle, path}; symbolic weights 0..5", oracle="edges marked -1 form an acyclic spanning forest connecting exactly the graph's components; others untouched", timeout=1800, mem_gb=20)),
+        ("c17_dsu_n5_u4", dict(tier="thorough", unit="DisjointSetUnion::{new,union,in_same_set,root}", inst="usize", bounds="5 elements, any 4 unions from the initial state, any query", oracle="in_same_set <=> connected by the unions made", timeout=2400, mem_gb=20)),
+        ("c17_kruskal_n4_a", dict(tier="thorough", unit="clique_graph::kruskal (findnz, sortperm_rev, permute, DisjointSetUnion)", inst="isize weights", bounds="4 cliques; edge sets {K4, 4-cycle, path}; symbolic weights 0..5", oracle="edges marked -1 form an acyclic spanning forest connecting exactly the graph's components; others untouched", timeout=3000, mem_gb=20)),
         ("c17_kruskal_n4_b", dict(tier="thorough", unit="same", inst="isize", bounds="4 cliques; edge sets {star, triangle+isolated, two disjoint edges, single edge}", oracle="same", timeout=3000, mem_gb=24)),
         ("c17_sparsity_mask", dict(unit="chordal_info::find_aggregate_sparsity_mask", inst="f64", bounds="A 4x2 nnz=3 symbolic, b in {-1,0,1}^4", oracle="row active <=> structural entry in A or nonzero b")),
         ("c17_connect_graph_n3", dict(unit="chordal_info::connect_graph (CscMatrix::set_entry)", inst="f64", bounds="all 8 strictly-lower patterns of a 3x3 L", oracle="afterwards every column but the last has an entry below the diagonal; only additions; canonical", timeout=1500)),
@@ -269,7 +269,7 @@ PROPS["C18"] = {
     "assumptions": ["CBMC's IEEE-754 sqrt model (isqrt goes through f64::sqrt)"],
     "harnesses": _mk("c18", [
         ("c18_tri_index_roundtrip_12bit", dict(nofloat=True, unit="scalarmath::upper_triangular_index_to_coord / coord_to_upper_triangular_index / isqrt", inst="usize", bounds="all idx < 2^12", oracle="mutually inverse; row<=col; idx = c(c+1)/2 + r", timeout=1500)),
-        ("c18_tri_index_roundtrip_24bit", dict(nofloat=True, tier="thorough", unit="same", inst="usize", bounds="all idx < 2^24", oracle="same", timeout=3600, mem_gb=20)),
+        ("c18_tri_index_roundtrip_24bit", dict(nofloat=True, tier="thorough", unit="same", inst="usize", bounds="all idx < 2^24", oracle="same", timeout=7200, mem_gb=20)),
         ("c18_tri_numbers", dict(unit="scalarmath::triangular_number / triangular_index", inst="usize", bounds="k < 2^12", oracle="k(k+1)/2 and T(k+1)-1", timeout=1200)),
         ("c18_subblock_map", dict(unit="augment_standard::add_subblock_map", inst="usize", bounds="clique of 3 vertices < 8, row_start < 100", oracle="appends start + svec(v_i,v_j) for i<=j in packed order")),
         ("c18_parent_block_indices", dict(unit="augment_compact::parent_block_indices", inst="usize", bounds="parent clique of 4 vertices < 10", oracle="svec index of (position of i, position of j)")),
@@ -357,18 +357,18 @@ PROPS["C13"] = {
         ("c13_soc3_w_winv_p7", dict(unit="same", inst="GF(7)", bounds="dim 3", oracle="W (Winv x) == x", timeout=1500)),
         ("c13_soc3_w_symmetric_p7", dict(unit="SecondOrderCone::mul_W", inst="GF(7)", bounds="dim 3", oracle="matrix read off by unit vectors equals its transpose; mul_W(T) == mul_W(N)", timeout=1500)),
         ("c13_soc3_w_alpha_beta_p7", dict(unit="SecondOrderCone::mul_W", inst="GF(7)", bounds="dim 3", oracle="y <- a W x + b y for all a,b,x,y", timeout=1500)),
-        ("c13_soc3_winv_w", dict(tier="thorough", unit="same", inst="GF(13)", bounds="dim 3", oracle="Winv (W x) == x", timeout=3600, mem_gb=20)),
-        ("c13_soc3_w_winv", dict(tier="thorough", unit="same", inst="GF(13)", bounds="dim 3", oracle="W (Winv x) == x", timeout=3600, mem_gb=20)),
+        ("c13_soc3_winv_w", dict(tier="thorough", unit="same", inst="GF(13)", bounds="dim 3", oracle="Winv (W x) == x", timeout=9000, mem_gb=20)),
+        ("c13_soc3_w_winv", dict(tier="thorough", unit="same", inst="GF(13)", bounds="dim 3", oracle="W (Winv x) == x", timeout=9000, mem_gb=20)),
         ("c13_soc3_w_symmetric", dict(tier="thorough", unit="same", inst="GF(13)", bounds="dim 3", oracle="symmetric; alpha/beta form", timeout=3600, mem_gb=20)),
         ("c13_soc3_hs_dense_p7", dict(unit="SecondOrderCone::mul_Hs", inst="GF(7)", bounds="dim 3", oracle="mul_Hs == W'W", timeout=1500)),
-        ("c13_soc3_hs_dense", dict(tier="thorough", unit="same", inst="GF(13)", bounds="dim 3", oracle="same", timeout=3600)),
+        ("c13_soc3_hs_dense", dict(tier="thorough", unit="same", inst="GF(13)", bounds="dim 3", oracle="same", timeout=9000)),
         ("c13_soc3_hs_block_p7", dict(unit="SecondOrderCone::get_Hs (dense packed block)", inst="GF(7)", bounds="dim 3", oracle="unpacked packed-triu block == mul_Hs", timeout=1500)),
         ("c13_soc3_update_scaling", dict(unit="SecondOrderCone::update_scaling", inst="GF(13)", bounds="dim 3, all s,z with square nonzero residuals", oracle="w normalised; eta^4 = res(s)/res(z)", timeout=2400, mem_gb=20)),
         ("c13_soc5_update_scaling_sparse_p17", dict(unit="SecondOrderCone::update_scaling incl. sparse_data (u,v,d), get_Hs, mul_Hs", inst="GF(17)", bounds="dim 5 (two symbolic tail entries, the others zero)", oracle="as _p7", timeout=3000, mem_gb=24)),
         ("c13_soc5_update_scaling_sparse_p19", dict(tier="thorough", unit="same", inst="GF(19)", bounds="same", oracle="same", timeout=7200, mem_gb=24)),
         ("c13_soc5_update_scaling_sparse_p7", dict(unit="SecondOrderCone::update_scaling incl. sparse_data (u,v,d), get_Hs, mul_Hs", inst="GF(7): every scaling point at which all nested roots exist has v = 0, so this instance decides the d and u parts only (GF(11), GF(13): no scaling point exists, vacuous; GF(17) quick / GF(19) thorough are the informative ones)", bounds="dim 5 (two symbolic tail entries, the others zero)", oracle="w normalised; eta^4 = res(s)/res(z); eta^2(D+uu'-vv') == mul_Hs; D block = eta^2 diag(d,1,..)", timeout=2400, mem_gb=24)),
         ("c13_soc3_jordan_p7", dict(unit="SecondOrderCone::circ_op/inv_circ_op/affine_ds/combined_ds_shift (_combined_ds_shift_symmetric)", inst="GF(7)", bounds="dim 3", oracle="arrow product; inverse; lambda o lambda; W^-1 ds o W dz - sigma mu e", timeout=1800)),
-        ("c13_soc3_jordan", dict(tier="thorough", unit="SecondOrderCone::circ_op/inv_circ_op/affine_ds/combined_ds_shift (_combined_ds_shift_symmetric)", inst="GF(13)", bounds="dim 3", oracle="arrow product; inverse; lambda o lambda; W^-1 ds o W dz - sigma mu e", timeout=3600)),
+        ("c13_soc3_jordan", dict(tier="thorough", unit="SecondOrderCone::circ_op/inv_circ_op/affine_ds/combined_ds_shift (_combined_ds_shift_symmetric)", inst="GF(13)", bounds="dim 3", oracle="arrow product; inverse; lambda o lambda; W^-1 ds o W dz - sigma mu e", timeout=9000)),
         ("c13_nn_scaling", dict(unit="NonnegativeCone::update_scaling/get_Hs/mul_Hs/mul_W/mul_Winv/affine_ds/Ds_from_Dz_offset", inst="GF(13)", bounds="dim 2", oracle="Hs z = s; lambda^2 = s z; Winv W = I; offset = ds/z", timeout=1200)),
     ]),
 }
@@ -443,10 +443,9 @@ PROPS["C10"] = {
         ("c10_exact_nn2_2sweeps", dict(stubs=True, tier="thorough", unit=_EQ_UNIT, inst="GF(13)", bounds="cones [NN2], 2 sweeps", oracle=_EQ_OR, timeout=7200, mem_gb=24)),
         ("c10_exact_nn1_soc2_1sweep", dict(stubs=True, unit=_EQ_UNIT, inst="GF(13)", bounds="cones [NN1,SOC2], 1 sweep (rectification)", oracle=_EQ_OR, timeout=2400, mem_gb=20)),
         ("c10_disabled", dict(stubs=True, nofloat=True, unit="DefaultProblemData::equilibrate", inst="f64 every bit pattern", bounds="n=m=2", oracle="equilibrate_enable=false: P,q,A,b bit-unchanged, identity scaling", timeout=1200)),
-        ("c10_zero_rows_cols", dict(stubs=True, nofloat=True, tier="thorough", unit="DefaultProblemData::equilibrate", inst="f64", bounds="n=m=2, empty column 1 of [P;A], empty row 1 of A, 2 sweeps", oracle="d[1] == e[1] == 1 exactly", timeout=1800, mem_gb=20)),
-        ("c10_bounds_pow2_2sweeps", dict(stubs=True, nofloat=True, tier="thorough", unit=_EQ_UNIT, inst="f64: data entries are powers of two with symbolic exponent in [-40,40] (24 orders of magnitude), default bounds 1e-4 / 1e4", bounds="n=m=1, 2 Ruiz sweeps", timeout=3000, mem_gb=28,
+        ("c10_zero_rows_cols", dict(stubs=True, nofloat=True, tier="thorough", unit="DefaultProblemData::equilibrate", inst="f64", bounds="n=m=2, empty column 1 of [P;A], empty row 1 of A, 2 sweeps", oracle="d[1] == e[1] == 1 exactly", timeout=3600, mem_gb=20)),
+        ("c10_bounds_pow2_2sweeps", dict(stubs=True, nofloat=True, tier="thorough", unit=_EQ_UNIT, inst="f64: data entries are powers of two with symbolic exponent in [-40,40] (24 orders of magnitude), default bounds 1e-4 / 1e4", bounds="n=m=1, 2 Ruiz sweeps", timeout=6000, mem_gb=28,
             oracle="cumulative d, e, c stay within [min_scaling, max_scaling] (8 ulp slack)")),
-        ("c10_bounds_pow2_3sweeps", dict(stubs=True, nofloat=True, tier="thorough", unit=_EQ_UNIT, inst="same", bounds="n=m=1, 3 sweeps", timeout=5400, mem_gb=32, oracle="same")),
         ("c10_rectify", dict(unit="rectify_equilibration of NonnegativeCone/ZeroCone/SecondOrderCone/ExponentialCone/PowerCone", inst="GF(13)", bounds="dim 3", oracle="scalar cones: delta=1,false; others: true and delta*e == mean(e) (constant)", timeout=1200)),
     ]),
 }
